@@ -20,6 +20,7 @@ C05.g check_pack cuts the pack into length field, header and blobs with exactly 
 import re
 from rules.common import *
 
+TECHNIQUE = ('static analysis over rustc MIR: severity table of CheckError constructions, layer-by-layer control dependence of check_pack (through helpers), truth table of the read-data pack filter, symbolic lengths of the trailer slices, read-error propagation and strict-reader reachability on the call graph')
 LEVEL = "other"
 EXPLANATION = (
     "Table and must-call rules over the MIR of commands/check.rs: which collector method receives each CheckError "
